@@ -85,6 +85,45 @@ def numerator_of(p, denom, tol=1e-9):
     return int(r)
 
 
+# ----------------------------------------------------------------------------- caller-side arrays
+class BufferPool:
+    """Hands out the *same* ndarray object again and again for arrays of one name / shape / dtype,
+    refilled in place — what a caller running a simulation loop over a preallocated buffer does.
+    Results must only depend on the contents, never on the identity or history of the object
+    (identity-keyed caches, aliasing of internal state with caller arrays)."""
+
+    def __init__(self):
+        self.bufs = {}
+
+    def get(self, name, values, dtype=None):
+        a = np.array(values) if dtype is None else np.array(values, dtype=dtype)
+        key = (name, a.shape, a.dtype.str)
+        b = self.bufs.get(key)
+        if b is None:
+            self.bufs[key] = a
+            return a
+        b[...] = a
+        return b
+
+
+POOL = BufferPool()
+
+
+def layout(a, rng):
+    """the same values in another memory layout: C order, Fortran order, or a non-contiguous view"""
+    a = np.asarray(a)
+    u = rng.random()
+    if a.ndim == 2 and u < 0.25:
+        return np.asfortranarray(a)
+    if a.ndim == 2 and u < 0.4:
+        big = np.zeros((a.shape[0], 2 * a.shape[1]), dtype=a.dtype); big[:, ::2] = a
+        return big[:, ::2]
+    if a.ndim == 1 and u < 0.2:
+        big = np.zeros(2 * a.shape[0], dtype=a.dtype); big[::2] = a
+        return big[::2]
+    return a
+
+
 # ----------------------------------------------------------------------------- timeouts
 class Timeout(Exception):
     pass
